@@ -1,4 +1,4 @@
-"""C15 (open): `D[:, :] = 0` is accepted (no exception) but does nothing, whereas the dense `A[:, :] = 0` zeroes the matrix:
+"""C15 (repaired): `D[:, :] = 0` is accepted (no exception) but does nothing, whereas the dense `A[:, :] = 0` zeroes the matrix:
 __setitem__ only zeroes rows / columns for a non-null subscript and a pair of null slices passes the validity check."""
 import numpy as np, sys
 from pymoto import DyadCarrier
